@@ -382,6 +382,7 @@ func c01Twin(run *evid.Run, h *hx.History, twin int, table map[string]*stateFn, 
 
 func CheckC02(run *evid.Run) {
 	nh := pick(run.Tier, 3000, 40000)
+	enableNoise(run.Seed)
 	run.Rule = "every prefix state of seeded histories (9 shapes, every other one with refused operations and forks as in C01; incl. 'overlap': merges of already-merged logs, into ancestors/descendants, partially overlapping forks, three-way merges where one side's head is interior on the other); after each step heads are recomputed by the model from GetEntries(); non-trivial iff the history reached a state with >=2 heads and a merge added entries; distinct = final DAG shape digest"
 	opts := hx.GenOpts{MaxSteps: pick(run.Tier, 40, 80), Orders: []string{"default", "hash"}}
 	parallel(nh, func(i int) {
